@@ -134,6 +134,20 @@ func svJoin(a, b SV) SV {
 	if b.Bot {
 		return a
 	}
+	if !a.Top && !b.Top && a.K == b.K && a.E == b.E && !a.E && a.C != b.C {
+		// two small constants (an ordinate chosen at run time: axis := 0 or 1): the range between them
+		lo, hi := a.C, a.C+a.W
+		if b.C < lo {
+			lo = b.C
+		}
+		if b.C+b.W > hi {
+			hi = b.C + b.W
+		}
+		if hi-lo <= 3 && !a.K {
+			a.C, b.C = lo, lo
+			a.W, b.W = hi-lo, hi-lo
+		}
+	}
 	if a.Top || b.Top || a.K != b.K || a.C != b.C || a.E != b.E {
 		return svTop
 	}
